@@ -328,8 +328,13 @@ def unbounded_expression_type_for_physical_type(type_definition):
     # TODO(bolms): Add a `[value_type]` attribute for `external`s.
     if ir_util.get_boolean_attribute(type_definition.attribute, attributes.IS_INTEGER):
         return ir_data.ExpressionType(integer=ir_data.IntegerType())
-    elif tuple(type_definition.name.canonical_name.object_path) == ("Flag",):
-        # This is a hack: the Flag type should say that it is a boolean.
+    elif (
+        tuple(type_definition.name.canonical_name.object_path) == ("Flag",)
+        and not type_definition.name.canonical_name.module_file
+    ):
+        # This is a hack: the Flag type should say that it is a boolean.  Only
+        # the prelude's Flag (module_file == "") is meant, not a user type that
+        # happens to be called Flag in some imported module.
         return ir_data.ExpressionType(boolean=ir_data.BooleanType())
     elif type_definition.has_field("enumeration"):
         return ir_data.ExpressionType(
